@@ -20,7 +20,18 @@ func VerifAverages() {
 	AverageRequired = P / 2
 	d, db := vrtNode(false)
 	tickers := []fat2.PTicker{fat2.PTickerUSD, fat2.PTickerXBT}
-	xbtFrom := 1 + vrt.Choose("xbtFrom", H) // the second asset appears later in the chain
+	// variant 1 (parameter gap=1): the second asset is quoted from the start, then left out of the
+	// rates of 1..2 consecutive heights and quoted again (a rated block need not quote every asset):
+	// its series must age by block height even while it receives no new sample
+	gapAt, gapLen := 0, 0
+	if vrt.Param("gap", 0) == 1 && vrt.Choose("variant", 2) == 1 {
+		gapAt = 1 + vrt.Choose("gapAt", H)
+		gapLen = 1 + vrt.Choose("gapLen", 2)
+	}
+	xbtFrom := 1
+	if gapAt == 0 {
+		xbtFrom = 1 + vrt.Choose("xbtFrom", H) // the second asset appears later in the chain
+	}
 	rated := make([]bool, H+2)
 	// the chain either starts at height 1 or straddles the PIP-10 activation (the third block of
 	// the chain is the activation block), so that era tests inside the routine are crossed by a
@@ -29,7 +40,10 @@ func VerifAverages() {
 	if vrt.Param("bases", 2) == 2 && vrt.Choose("base", 2) == 1 {
 		base = int(specPIP10) - 3
 	}
-	zeroAt := vrt.Choose("zeroRateAt", H+1) // the first asset is recorded with rate 0 at this height (0 = nowhere)
+	zeroAt := 0
+	if gapAt == 0 {
+		zeroAt = vrt.Choose("zeroRateAt", H+1)
+	} // the first asset is recorded with rate 0 at this height (0 = nowhere)
 	val := make([][2]uint64, H+2) // the recorded samples, for the reference value below
 	has := make([][2]bool, H+2)
 	// ---- the chain's rate table (committed, as after syncing H blocks)
@@ -40,6 +54,9 @@ func VerifAverages() {
 		}
 		for ti, t := range tickers {
 			if ti == 1 && h < xbtFrom {
+				continue
+			}
+			if ti == 1 && gapAt > 0 && h >= gapAt && h < gapAt+gapLen {
 				continue
 			}
 			v := vrt.URange("rate", 1, 1<<40)
@@ -100,7 +117,9 @@ func VerifAverages() {
 			vrt.Assert("C01.conversion-pricing-independent-of-process-history", avgA[t] == avgB[t])
 		}
 	}
-	if nRated >= 3 {
+	if gapAt > 0 {
+		vrt.Cover("asset-unquoted-for-a-stretch")
+	} else if nRated >= 3 {
 		vrt.Cover("three-or-more-rated")
 	} else {
 		vrt.Cover("few-rated")
